@@ -125,6 +125,7 @@ type AtCall struct {
 	Callee string // substring of the callee name; "name@text" also requires text in the call's source snippet
 	Site   string
 	Pred   *Clause
+	Effect *Clause // at-call <callee> effect g_x == expr : ghost update when the call (or go) happens
 }
 
 type LoopSpec struct {
@@ -448,11 +449,19 @@ func loadPkgSpec(path, pkgPath string) (*PkgSpec, error) {
 			if i < 0 {
 				return nil, fmt.Errorf("%s:%d: bad at-call", path, ln.n)
 			}
-			c, err := parseClause(rest[i+1:], path, ln.n)
+			body := strings.TrimSpace(rest[i+1:])
+			isEffect := strings.HasPrefix(body, "effect ")
+			if isEffect {
+				body = strings.TrimSpace(strings.TrimPrefix(body, "effect "))
+			}
+			c, err := parseClause(body, path, ln.n)
 			if err != nil {
 				return nil, err
 			}
 			ac := &AtCall{Callee: rest[:i], Pred: c}
+			if isEffect {
+				ac.Effect, ac.Pred = c, nil
+			}
 			if j := strings.Index(ac.Callee, "@"); j >= 0 {
 				ac.Site = ac.Callee[j+1:]
 				ac.Callee = ac.Callee[:j]
